@@ -899,6 +899,8 @@ C09.order:phase: values are linked in a later pass over the definitions than the
     }
 
     scope(m, ctx, "C09.scope");
+    // every endpoint of a range that is a reference is handed to the linker (open-ended ranges included): decided under C04.refs
+    borrow(ctx, "C04", "C04.refs", "C09.refs", &mut |sub| crate::rules::c04::run(m, sub));
     traverse(m, ctx, "C09.traverse");
     value_chain(m, ctx, "C09.scope");
     detectors(m, ctx, "C09.detect");
